@@ -206,6 +206,46 @@ func init() {
 		outside: []string{"log formatting / standalone telemetry rendering", "the exact error type of every failure (only non-empty for error statuses, Runtime.ExitError checked in C06)", "restore events"}})
 }
 
+func init() {
+	pkgRC := modulePath + "/lambda/rapidcore"
+	pkgRapid := modulePath + "/lambda/rapid"
+	c12 := []*harnessSpec{
+		orch(pkgRC, "VerifC12Script4", 0, "FULL stack: the first runtime executes every script of 4 calls over {next, response(in-flight), response(stale), error(in-flight), init/error} against a reference automaton, while two invocations arrive", "next-new", "next-same", "accepted", "refused-state", "init-error", "init-error-refused", "script-done"),
+		orch(pkgRC, "VerifFullIllegal", 2, "FULL stack: illegal calls interleaved with legal ones, schedules with <=2 delays", "case-variant", "illegal", "scenario-done"),
+		orch(pkgRapid, "VerifC18Restore", 1, "snapshot mode: restore/next, restore/error, legacy init/error, stalled hook, no restore poll, exit (routes exist only in snapshot mode is not checked)", "hook-ok", "hook-error", "hook-timeout", "no-restore-poll", "exit"),
+	}
+	c12t := []*harnessSpec{
+		orch(pkgRC, "VerifC12Script5", 0, "scripts of 5 calls", "script-done"),
+		orch(pkgRC, "VerifC12Script4", 1, "scripts of 4 calls, schedules with <=1 delay", "script-done"),
+		orch(pkgRC, "VerifFullIllegal", 3, "illegal calls, <=3 delays", "scenario-done"),
+		orch(pkgRapid, "VerifC18Restore", 2, "snapshot mode", "hook-ok"),
+	}
+	checkRegistry = append(checkRegistry, &checkSpec{id: "C12", level: "other", quick: c12, thorough: c12t,
+		assume:  []string{"FULL composition (real Server, orchestration, validator, handlers, Runtime state objects) from go/ssa; the reference automaton is harness code written from the property text", "where the text is silent the reference accepts the code's answer (none needed for the Runtime API)"},
+		outside: []string{"chi routing: 404/405 for unknown routes, and the mounting of restore routes only in snapshot mode", "scripts longer than 5 calls"}})
+
+	c13 := []*harnessSpec{
+		orch(pkgRC, "VerifC13External3", 0, "FULL stack: an external extension executes every script of 3 calls over {register(INVOKE), register(bad event), register(SHUTDOWN), next, init/error, exit/error, unknown id, missing/malformed id} against a reference automaton", "registered", "event", "init-error", "exit-error", "script-done"),
+		orch(pkgRC, "VerifC13Internal3", 0, "the same for an internal extension registering from inside the runtime", "registered", "script-done"),
+		orch(pkgRC, "VerifC13ExitWhileParked", 1, "exit/error reported while another request of the extension is parked in next: the parked next is refused when released", "exit-reported", "parked-next-answered"),
+	}
+	c13t := []*harnessSpec{
+		orch(pkgRC, "VerifC13External4", 0, "scripts of 4 calls (external)", "script-done"),
+		orch(pkgRC, "VerifC13Internal4", 0, "scripts of 4 calls (internal)", "script-done"),
+		orch(pkgRC, "VerifC13ExitWhileParked", 2, "exit/error while parked", "parked-next-answered"),
+	}
+	checkRegistry = append(checkRegistry, &checkSpec{id: "C13", level: "other", quick: c13, thorough: c13t,
+		assume:  []string{"FULL composition from go/ssa; reference automaton is harness code", "a repeated identical init/error (resp. exit/error) report in its own final state is answered 202 by the code and changes nothing: the property text is silent, the reference accepts 202 or 403"},
+		outside: []string{"the limit of ten extensions and name collisions across kinds (one extension per script)", "the accountId feature header", "scripts longer than 4 calls", "JSON body parsing beyond the concrete bodies used"}})
+
+	c18 := []*harnessSpec{
+		orch(pkgRapid, "VerifC18Restore", 1, "snapshot mode, symbolic runtime behaviour in {hook ok, restore/error(type), init/error(type), hook stalls, no restore poll, exit}, symbolic error type and presented token", "hook-ok", "hook-error", "hook-timeout", "no-restore-poll", "exit"),
+	}
+	checkRegistry = append(checkRegistry, &checkSpec{id: "C18", level: "other", quick: c18, thorough: withD(c18, 3, 1000000),
+		assume:  []string{"ORCH composition in init-caching mode with the real handleRestore / AwaitRuntimeReadyWithDeadline / credentials service / credentials handler; hook timeout as a logical timer firing at quiescence"},
+		outside: []string{"wall-clock bound of the timeout", "orders in which the restore request arrives before the runtime parked (init completes first here)"}})
+}
+
 // expiry: timers are not restricted to quiescence (the harness switches them with verifRaceTimers)
 func expiry(h *harnessSpec) *harnessSpec { h.maximalProgress = false; return h }
 
